@@ -128,3 +128,36 @@ package store
 //@   ensures arg: STot(store) == old(STot(store)) && (forall k int :: SView(store, k) == old(SView(store, k)))
 //@   ensures stable: footprintStable(this) && footprintStable(store)
 //@   modifies footprint(this), footprint(store)
+
+// cumulative weight of the indexes <= k, at the level of the abstract content
+//@ fun SCumArr(x Store, k int) array_real := lambda j int :: j <= k ? SView(x, j) : 0.0
+//@ fun SCum(x Store, k int) real := Tot(SCumArr(x, k))
+
+// KeyAtRank: the first index whose cumulative weight exceeds the rank (negative ranks count as 0); when the
+// rank is not below the total weight, the maximum index. The answer always carries positive weight.
+//@ func Store.KeyAtRank
+//@   serves C04 C01 C11
+//@   requires SInv(this)
+//@   ensures found: max(rank, 0.0) < STot(this) ==> in32(result) && SView(this, result) > 0.0 && SCum(this, result) > max(rank, 0.0) && SCum(this, result - 1) <= max(rank, 0.0) using TotExt(SCumArr(this, result), DCumArr(as(this, *DenseStore), result)), TotExt(SCumArr(this, result - 1), DCumArr(as(this, *DenseStore), result - 1))
+//@   ensures clamp: max(rank, 0.0) >= STot(this) && STot(this) > 0.0 && SExact(this) ==> in32(result) && SView(this, result) > 0.0 && (forall k int :: k > result ==> SView(this, k) == 0.0)
+//@   ensures SInv(this) && STot(this) == old(STot(this)) && (forall k int :: SView(this, k) == old(SView(this, k)))
+//@   ensures stable: footprintStable(this)
+//@   modifies footprint(this)
+
+// Framing: a store whose footprint is untouched between two states keeps its invariant, total and content.
+//@ lemma SFrame(x Store) twostate
+//@   serves C04 C14
+//@   requires old(SInv(x)) && untouched(x)
+//@   ensures SInv(x) && STot(x) == old(STot(x)) && (forall k int :: SView(x, k) == old(SView(x, k))) && footprintStable(x)
+
+// Outside package store these are names for their values (related only through the contracts and lemmas above).
+//@ opaque SInv
+//@ opaque STot
+//@ opaque SView
+//@ opaque SCum
+//@ opaque SExact
+
+//@ lemma STotNonneg(x Store)
+//@   serves C04 C12
+//@   requires SInv(x)
+//@   ensures STot(x) >= 0.0 && (STot(x) == 0.0 ==> (forall k int :: SView(x, k) == 0.0)) && (STot(x) > 0.0 ==> (exists k int :: SView(x, k) > 0.0)) using SViewNonneg(x), STotIsTot(x), TotNonneg(SViewArr(x)), TotPos(SViewArr(x)), TotZero(SViewArr(x))
